@@ -6,11 +6,12 @@ import Morlock.Basic
 -/
 namespace Morlock.Model
 
-/-- `TimeControl.Limits`: `(soft, hard)` for the clock `remainder` and `t.Moves = moves`. -/
+/-- `TimeControl.Limits`: `(soft, hard)` for the clock `remainder` and `t.Moves = moves` (every operation in `int64`:
+`moves + 1`, the two divisions, `3 * soft`). `remainder / moves / 2`: the first divisor is `Moves + 1` (wrapped: in `[2, 2^63)` or,
+for `Moves = 2^63 - 1`, `-2^63`), never `0` or `-1`, so neither division can panic. -/
 def limits (remainder moves : Int) : Int × Int :=
   let m : Int := if moves > 0 then wrap64 (moves + 1) else 40
-  let den := wrap64 (2 * m)
-  let soft := if den = 0 then 0 else wrap64 (Int.tdiv remainder den)   -- den = 0 would panic in Go; unreachable for moves < 2^62
+  let soft := wrap64 (Int.tdiv (wrap64 (Int.tdiv remainder m)) 2)
   (soft, wrap64 (3 * soft))
 
 end Morlock.Model
